@@ -44,6 +44,10 @@ def dictUpdate (g h : Graph) : Graph :=
 def determineList (reg : Reg) (registered : Comp → Bool) (fuel : Nat) (cs : List Comp) : Option Graph :=
   cs.foldl (fun acc c => acc.bind fun g => (getDependencyGraph reg registered fuel c).map (dictUpdate g)) (some [])
 
+/-- `dr.add_dependency(c, d)` / `ComponentType.add_dependency`: one more declared dependency of an already registered
+component (a new member of its first at-least-one group); nothing else in the registry changes -/
+def addDep (reg : Reg) (c d : Comp) : Reg := fun x => if x = c then reg c ++ [d] else reg x
+
 /-- `c` is the root or a (transitive) dependency of it -/
 inductive Reach (reg : Reg) : Comp → Comp → Prop where
   | refl (c : Comp) : Reach reg c c
